@@ -16,7 +16,7 @@ use worterbuch_common::{
     SubscriptionId, TransactionId, ValueEntry, WbApi,
 };
 
-async fn connect_client(ws: &WireServer) -> Result<wbc::Worterbuch, Failure> {
+pub(crate) async fn connect_client(ws: &WireServer) -> Result<wbc::Worterbuch, Failure> {
     let mut cfg = wbc::config::Config::default();
     cfg.proto = "unix".to_owned();
     cfg.socket_path = Some(ws.sock.clone());
